@@ -9,7 +9,18 @@ def run(name, seed):
     out = c.describe()
     e1 = c.make()
     dc = copy.deepcopy
-    A = e1.fit_transform(dc(c.X), **dc(c.fit_kw))
+    try:
+        A = e1.fit_transform(dc(c.X), **dc(c.fit_kw))
+    except Exception as ea:
+        # the claim for an input on which fit_transform raises: fit raises the same exception class
+        try:
+            c.make().fit(dc(c.X), **dc(c.fit_kw))
+        except Exception as eb:
+            if type(ea) is type(eb):
+                out["both_raise"] = type(ea).__name__
+                out["nnz"] = 0
+                return out
+        raise
     e2 = c.make()
     r = e2.fit(dc(c.X), **dc(c.fit_kw))
     out["fit_returns_self"] = r is e2
